@@ -8,7 +8,7 @@ import vlib, gens, p_mcb, p_comp, p_vec, p_approx
 
 
 def expect_violation(module, cfg):
-    r = vlib.tlc_ok(module, cfg, timeout=900)
+    r = vlib.tlc_ok(module, cfg, timeout=2400)
     ok = r['violated']
     print('%-28s %-30s %s' % (module, cfg, 'refuted as expected' if ok else 'NOT refuted  <-- problem'), flush=True)
     return ok
@@ -62,7 +62,7 @@ def run():
     try:
         print('--- (1) named deviations must be refuted by TLC')
         for mod, cfg in (('ExtGcd', 'MC_ExtGcd_pinned.cfg'), ('MpiHidden', 'MC_MpiHidden_pinned.cfg'), ('MpiProto', 'MC_MpiProto_pinned.cfg'),
-                         ('Concurrency', 'MC_Concurrency_pinned.cfg')):
+                         ('Concurrency', 'MC_Concurrency_pinned.cfg'), ('ParFor', 'MC_ParFor_pinned.cfg'), ('BiDijkstra', 'MC_BiDijkstra_pinned.cfg')):
             ok = expect_violation(mod, cfg) and ok
         print('--- (2) recorded traces: accepted as recorded, rejected when corrupted')
         graphs = [gens.reweight(rng, gens.complete(4), [1, 2, 3]), gens.reweight(rng, gens.wheel(5), [1, 2, 3, 4]), gens.cycle(5, 2)]
